@@ -17,9 +17,7 @@ def viol07 (s : Sim) : List String :=
   (s.vehicles.filter (fun v => !locOk s v)).map fun v => s!"C07/{v.act.kind}| vehicle {v.id} in {v.act.kind} at cell {v.pos.cell}"
 
 def viol10 (s : Sim) : List String :=
-  ((s.vehicles.filter (fun v => !accessOk s v)).map fun v => s!"C10/{v.act.kind}| vehicle {v.id} in {v.act.kind} without access") ++
-  ((s.vehicles.filter (fun v => !accessBaseStationOk s v)).map fun v =>
-    s!"C10/ChargingBase-station| vehicle {v.id} in ChargingBase on a station that does not grant access")
+  (s.vehicles.filter (fun v => !accessOk s v)).map fun v => s!"C10/{v.act.kind}| vehicle {v.id} in {v.act.kind} without access"
 
 def viol17 (s : Sim) : List String :=
   (s.requests.filter (fun r => !dispatchOk s r)).map fun r => s!"C17/stale-dispatch| request {r.id} records vehicle {r.dispVeh}"
